@@ -296,12 +296,13 @@ def _attr_bindings(ctx, cls: ClassInfo, attr: str):
     return out
 
 
-def _self_root_attr(e: ast.AST):
+def _self_root_attr(e: ast.AST, recv: str = "self"):
     """('self.attr', exact) for an expression `self.attr`, `self.attr[k]`, `self.attr.x[k]...`; None otherwise.
-    exact = the expression is the attribute itself (not an element / sub-object of it)."""
+    exact = the expression is the attribute itself (not an element / sub-object of it).  `recv` is the name that
+    holds the shallow copy in the function at hand (a parameter, in a function the copy was handed to)."""
     exact = True
     while True:
-        if isinstance(e, ast.Attribute) and isinstance(e.value, ast.Name) and e.value.id == "self":
+        if isinstance(e, ast.Attribute) and isinstance(e.value, ast.Name) and e.value.id == recv:
             return "self." + e.attr, exact
         if isinstance(e, ast.Subscript):
             e, exact = e.value, False
@@ -311,23 +312,54 @@ def _self_root_attr(e: ast.AST):
             return None
 
 
-def _alias_sinks(an: FreshAnalysis, fn: ast.AST):
-    """In-place mutations through a local alias of (an element of) `self.attr`:
-           d = self.attr[k]; d[x] = v     /     lst = self.attr; lst.append(v)
-    Only names bound exactly once, by such an expression.  Yields (cfg node id, 'self.attr', state, ast node)."""
-    from ..astutil import MUTATING_METHODS
-    binds: Dict[str, List] = {}
-    for n, v, st in name_stores(fn):
-        binds.setdefault(n, []).append((v, st))
-    alias = {}
-    for n, lst in binds.items():
-        if len(lst) == 1 and lst[0][0] is not None:
-            r = _self_root_attr(lst[0][0])
-            if r is not None:
-                alias[n] = (r[0], r[1], lst[0][1])
-    if not alias:
-        return
-    for node in an.cfg.nodes:
+def _identity_leaves(e: ast.AST):
+    """The sub-expressions one of which *is* (same object) the value of `e`: operands of `a or b` / `a and b`,
+    both arms of a conditional expression, the value of a walrus, the argument of typing.cast()."""
+    if isinstance(e, ast.BoolOp):
+        return [x for v in e.values for x in _identity_leaves(v)]
+    if isinstance(e, ast.IfExp):
+        return _identity_leaves(e.body) + _identity_leaves(e.orelse)
+    if isinstance(e, ast.NamedExpr):
+        return _identity_leaves(e.value)
+    if isinstance(e, ast.Call) and (call_name(e) or "").rsplit(".", 1)[-1] == "cast" and len(e.args) == 2 and not e.keywords:
+        return _identity_leaves(e.args[1])
+    return [e]
+
+
+def _alias_sinks(an: FreshAnalysis, fn: ast.AST, recv: str = "self"):
+    """In-place mutations through a local name that may hold (an element of) `self.attr`:
+           d = self.attr[k]; d[x] = v     /     lst = self.attr; lst.append(v)     /
+           opts = self.attr or {}; opts.update(...)     /     a = self.attr; b = a if c else {}; b[k] = v
+    The name is resolved at the mutation through its reaching definitions (plain assignments, chains of local
+    aliases, `or`/`and`/conditional expressions/walrus/cast()), so neither the name nor the number of bindings
+    matters.  The state is that of `self.attr` where the alias was taken (fresh if the attribute had been rebound
+    to a new container before); an element / sub-object of the attribute is shared in any case.
+    Yields (cfg node id, 'self.attr', state, ast node)."""
+    from ..astutil import MUTATING_METHODS, own_exprs
+    from ._helpers_rob_c2 import ReachingDefs
+    rd = None
+    g = an.cfg
+
+    def holds(name, at, seen):
+        """[(path, exact, cfg node of the binding)] of the self-rooted values `name` may hold at node `at`"""
+        out = []
+        for d in rd.at(at, name):
+            if d.id in seen:
+                continue
+            seen.add(d.id)
+            if d.kind != "assign" or d.path or d.value is None:
+                continue
+            for leaf in _identity_leaves(d.value):
+                if isinstance(leaf, ast.Name):
+                    if leaf.id != recv:
+                        out.extend(holds(leaf.id, d.node, seen))
+                    continue
+                r = _self_root_attr(leaf, recv)
+                if r is not None:
+                    out.append((r[0], r[1], d.node))
+        return out
+
+    for node in g.nodes:
         st = node.stmt
         if st is None or not isinstance(st, ast.stmt) or node.kind not in ("stmt", "test", "for", "with_enter"):
             continue
@@ -337,81 +369,119 @@ def _alias_sinks(an: FreshAnalysis, fn: ast.AST):
                 [st.target] if isinstance(st, (ast.AugAssign, ast.AnnAssign)) else []
             for t in tgts:
                 for e in ast.walk(t):
-                    if isinstance(e, ast.Subscript) and isinstance(e.value, ast.Name) and e.value.id in alias \
+                    if isinstance(e, ast.Subscript) and isinstance(e.value, ast.Name) and e.value.id != recv \
                             and isinstance(e.ctx, (ast.Store, ast.Del)):
                         hits.append((e.value.id, st))
-        from ..astutil import own_exprs
         for part in own_exprs(st):
             for c in ast.walk(part):
                 if isinstance(c, ast.Call) and isinstance(c.func, ast.Attribute) and c.func.attr in MUTATING_METHODS \
-                        and isinstance(c.func.value, ast.Name) and c.func.value.id in alias:
+                        and isinstance(c.func.value, ast.Name) and c.func.value.id != recv:
                     hits.append((c.func.value.id, c))
         for nm, hit in hits:
-            path, exact, bind_stmt = alias[nm]
-            if exact:
-                bn = an.cfg.nodes_for(bind_stmt)
-                state = S
-                if bn:
-                    state = F
-                    for b in bn:
-                        state = join(state, an.state_at(b, path))
-            else:
-                state = S  # an element / sub-object of the attribute: shared even when the attribute was shallow-copied
-            yield node.id, path, state, hit
+            if rd is None:
+                rd = ReachingDefs(g, fn)
+            for path, exact, bnode in holds(nm, node.id, set()):
+                # an element / sub-object of the attribute is shared even when the attribute was shallow-copied
+                state = an.state_at(bnode, path) if exact else S
+                yield node.id, path, state, hit
 
 
-def _helper_mutations(ctx, f: FuncInfo, an: FreshAnalysis, gen_names, depth, seen, chain=()):
-    """In-place mutations of `self.<attr>` performed by non-generative helper methods that the (generative)
-    function `f` invokes as `self.helper(...)`, followed to depth 2.  The helper runs on the same shallow copy:
-    attributes the caller has rebound to a fresh value before the call are fresh in the helper.
-    Yields (path 'self.attr', state, ast node, chain of helper keys, loc)."""
-    if f.cls is None or depth > 2:
+def _receiver_param(tgt: FuncInfo, call: ast.Call, recv: str) -> Optional[str]:
+    """The parameter of `tgt` that receives the object named `recv` in `call(..., recv, ...)` (module function,
+    `Class.classmethod(recv)`, `Class.staticmethod(recv)`, unbound `Class.method(recv)`); None if it is not passed
+    as a plain argument."""
+    params = list(tgt.params)
+    if tgt.cls is not None and any(d.split(".")[-1] == "classmethod" for d in tgt.decorators):
+        params = params[1:]
+    a = tgt.node.args
+    npos = len(a.posonlyargs) + len(a.args) - (len(tgt.params) - len(params))
+    for i, arg in enumerate(call.args):
+        if isinstance(arg, ast.Starred):
+            break
+        if isinstance(arg, ast.Name) and arg.id == recv:
+            return params[i] if i < npos else None
+    for kw in call.keywords:
+        if kw.arg is not None and isinstance(kw.value, ast.Name) and kw.value.id == recv and kw.arg in params:
+            return kw.arg
+    return None
+
+
+def _helper_mutations(ctx, f: FuncInfo, an: FreshAnalysis, gen_names, depth, seen, chain=(), recv="self", recv_cls=None):
+    """In-place mutations of `self.<attr>` performed by the non-generative functions that the (generative)
+    function `f` runs on its shallow copy, followed to depth 2:
+      * helper methods invoked on the copy, `self.helper(...)`;
+      * functions the copy is handed to as an argument -- a module-level function, `Class.classmethod(self)`,
+        `Class.staticmethod(self)`, an unbound `Class.method(self)` -- where the copy is a parameter.
+    The callee works on the same shallow copy: attributes the caller has rebound to a fresh value before the call
+    are fresh in the callee.  `recv` is the name under which the copy is known in `f` (`self`, or the parameter
+    that received it), `recv_cls` the class of the generative method the copy was made in.
+    Yields (path 'self.attr', state, ast node, chain of callee keys, loc)."""
+    recv_cls = recv_cls if recv_cls is not None else f.cls
+    if recv_cls is None or depth > 2:
         return
-    from ..astutil import mutating_calls, subscript_stores
+    from ..astutil import mutating_calls, subscript_stores, own_exprs
     for node in an.cfg.nodes:
         st = node.stmt
         if st is None or not isinstance(st, ast.stmt) or node.kind not in ("stmt", "test", "for", "with_enter"):
             continue
-        from ..astutil import own_exprs
         for part in own_exprs(st):
             for c in ast.walk(part):
-                if not (isinstance(c, ast.Call) and isinstance(c.func, ast.Attribute) and isinstance(c.func.value, ast.Name)
-                        and c.func.value.id == "self"):
+                if not isinstance(c, ast.Call):
                     continue
-                tgt = ctx.index.resolve_method(f.cls, c.func.attr)
-                if tgt is None or tgt.node is f.node or tgt.key in seen or tgt.type_only:
+                tgt, r2 = None, None
+                if isinstance(c.func, ast.Attribute) and isinstance(c.func.value, ast.Name) and c.func.value.id == recv:
+                    # recv.helper(...)
+                    tgt = ctx.index.resolve_method(f.cls if recv == "self" and f.cls is not None else recv_cls, c.func.attr)
+                    if tgt is None or any(d.split(".")[-1] in ("_generative", "classmethod", "staticmethod") for d in tgt.decorators):
+                        continue
+                    r2 = tgt.params[0] if tgt.params else None
+                elif any(isinstance(a_, ast.Name) and a_.id == recv for a_ in list(c.args) + [k.value for k in c.keywords]):
+                    # callee(..., recv, ...)
+                    nm = call_name(c) or ""
+                    if not nm or "()" in nm or nm.split(".")[0] in ("self", "cls", recv):
+                        continue
+                    try:
+                        tgt = ctx.index.resolve(f.module, nm)
+                    except Exception:
+                        tgt = None
+                    if not isinstance(tgt, FuncInfo) or any(d.split(".")[-1] == "_generative" for d in tgt.decorators):
+                        continue
+                    r2 = _receiver_param(tgt, c, recv)
+                if tgt is None or r2 is None or tgt.node is f.node or tgt.key in seen or tgt.type_only:
                     continue
-                if any(d.split(".")[-1] in ("_generative", "classmethod", "staticmethod") for d in tgt.decorators):
-                    continue
-                # cheap pre-filter: anything that could be an in-place mutation or a further self.helper() call?
+                # cheap pre-filter: anything that could be an in-place mutation or a further call on / with the copy?
                 interesting = bool(mutating_calls(tgt.node)) or bool(subscript_stores(tgt.node)) or any(
                     isinstance(x, ast.Delete) for x in walk_local(tgt.node)) or any(
-                    isinstance(x, ast.Call) and isinstance(x.func, ast.Attribute) and isinstance(x.func.value, ast.Name)
-                    and x.func.value.id == "self" for x in walk_local(tgt.node))
+                    isinstance(x, ast.Call) and (
+                        (isinstance(x.func, ast.Attribute) and isinstance(x.func.value, ast.Name) and x.func.value.id == r2)
+                        or any(isinstance(a_, ast.Name) and a_.id == r2 for a_ in list(x.args) + [k.value for k in x.keywords]))
+                    for x in walk_local(tgt.node)) or any(
+                    isinstance(x, ast.AugAssign) and isinstance(x.target, ast.Attribute) and isinstance(x.target.value, ast.Name)
+                    and x.target.value.id == r2 for x in walk_local(tgt.node))
                 if not interesting:
                     continue
                 seen = seen | {tgt.key}
                 pre = an.pre.get(node.id, {})
                 entry = {p: S for p in tgt.params}
-                entry.update({k: v for k, v in pre.items() if k.startswith("self.")})
-                entry["self"] = pre.get("self", S)
-                entry["self.__dict__"] = pre.get("self", S)
+                entry.update({r2 + k[len(recv):]: v for k, v in pre.items() if k.startswith(recv + ".")})
+                entry[r2] = pre.get(recv, S)
+                entry[r2 + ".__dict__"] = pre.get(recv, S)
                 an2 = _analysis(ctx, tgt, gen_names, entry)
                 ctx.functions_analysed.add(tgt.key)
                 ch = chain + (tgt.key,)
                 for nid, kind, root, d, n2 in an2.mutation_sinks():
-                    if root != "self" or kind != "inplace":
+                    if root != r2 or kind != "inplace":
                         continue
-                    path = ".".join(d.split(".")[:2])
-                    state = an2.state_at(nid, path) if path != "self.__dict__" else an2.state_at(nid, "self")
-                    yield path, state, n2, ch, f"{tgt.module.path}:{getattr(n2, 'lineno', tgt.node.lineno)}"
+                    lpath = ".".join(d.split(".")[:2])
+                    state = an2.state_at(nid, lpath) if lpath != r2 + ".__dict__" else an2.state_at(nid, r2)
+                    yield "self." + lpath.split(".", 1)[1], state, n2, ch, f"{tgt.module.path}:{getattr(n2, 'lineno', tgt.node.lineno)}"
                 for nid, kind, root, d, n2 in an2.mutation_sinks():
-                    if root == "self" and kind == "attr-store" and isinstance(n2, ast.AugAssign) and d.count(".") == 1 \
+                    if root == r2 and kind == "attr-store" and isinstance(n2, ast.AugAssign) and d.count(".") == 1 \
                             and an2.state_at(nid, d) != F:
-                        yield d, "AUG", n2, ch, f"{tgt.module.path}:{n2.lineno}"
-                for nid, path, state, n2 in _alias_sinks(an2, tgt.node):
+                        yield "self." + d.split(".", 1)[1], "AUG", n2, ch, f"{tgt.module.path}:{n2.lineno}"
+                for nid, path, state, n2 in _alias_sinks(an2, tgt.node, r2):
                     yield path, state, n2, ch, f"{tgt.module.path}:{getattr(n2, 'lineno', tgt.node.lineno)}"
-                yield from _helper_mutations(ctx, tgt, an2, gen_names, depth + 1, seen, ch)
+                yield from _helper_mutations(ctx, tgt, an2, gen_names, depth + 1, seen, ch, r2, recv_cls)
 
 
 @R.rule("C03-R1", floor=60, template="T-FRESH",
